@@ -75,6 +75,11 @@ protected:
 
     /** Depth of the frame stack before the frame of the current template / edge was pushed. */
     size_t templateFrameDepth{0};
+
+    /** The template whose local declarations contain the process declaration being built (misplaced, but
+     * the XML reader accepts any declaration there), and its frame depth: restored by proc_end(). */
+    template_t* enclosingTemplate{nullptr};
+    size_t enclosingFrameDepth{0};
     size_t edgeFrameDepth{0};
 
     /** The gantt map under construction. */
